@@ -95,4 +95,84 @@ theorem slice_reverse {α : Type} (xs : List α) :
     funext k; omega
   rw [hc, hf]
 
+/-! ### the step-only form `[::k]` -/
+
+theorem step_count (n k : Nat) (hk : 0 < k) :
+    (if (0 : Int) < (n : Int) then (((n : Int) - 0 - 1) / (k : Int) + 1).toNat else 0) = (n + k - 1) / k := by
+  split
+  · rename_i h
+    have hn : 0 < n := by omega
+    have e : ((n : Int) - 0 - 1) = ((n - 1 : Nat) : Int) := by omega
+    have e3 : ((n : Int) - 0 - 1) / (k : Int) = (((n - 1) / k : Nat) : Int) := by rw [e, Int.natCast_ediv]
+    have e2 : n + k - 1 = (n - 1) + k := by omega
+    have e4 : (n + k - 1) / k = (n - 1) / k + 1 := by rw [e2, Nat.add_div_right _ hk]
+    rw [e3, e4]
+    generalize (n - 1) / k = q
+    omega
+  · rename_i h
+    have hn : n = 0 := by omega
+    subst hn
+    have : (0 + k - 1) / k = 0 := Nat.div_eq_of_lt (by omega)
+    omega
+
+/-- **`xs[::k]`, `k > 0`, selects positions `0, k, 2k, …` below the length** — `⌈n / k⌉` of them, all inside the list -/
+theorem slice_step_indices (n k : Nat) (hk : 0 < k) :
+    sliceIndices n none none (some (k : Int)) = .ok ((List.range ((n + k - 1) / k)).map (fun j => j * k)) ∧
+    ∀ i, i ∈ (List.range ((n + k - 1) / k)).map (fun j => j * k) → i < n := by
+  constructor
+  · unfold sliceIndices
+    have h0 : ¬ ((k : Int) = 0) := by omega
+    have h1 : ¬ ((k : Int) < 0) := by omega
+    have h2 : (k : Int) > 0 := by omega
+    simp only [Option.getD_some, h0, h1, h2, if_false, if_true]
+    rw [step_count n k hk]
+    congr 1
+    apply List.map_congr_left
+    intro j _
+    have : (0 : Int) + (k : Int) * (j : Int) = ((j * k : Nat) : Int) := by
+      rw [Int.zero_add, Int.mul_comm]; exact (Int.natCast_mul j k).symm
+    rw [this]; rfl
+  · intro i hi
+    obtain ⟨j, hj, rfl⟩ := List.mem_map.mp hi
+    have hj' : j < (n + k - 1) / k := List.mem_range.mp hj
+    have h3 : (j + 1) * k ≤ n + k - 1 := (Nat.le_div_iff_mul_le hk).mp hj'
+    rw [Nat.add_mul] at h3
+    omega
+
+/-- the elements `xs[::k]` returns: as many as there are multiples of `k` below the length, the `j`-th being `xs[j * k]` -/
+theorem slice_step_elems {α : Type} (xs : List α) (k : Nat) (hk : 0 < k) :
+    (pick xs ((List.range ((xs.length + k - 1) / k)).map (fun j => j * k))).length = (xs.length + k - 1) / k ∧
+    ∀ j, j < (xs.length + k - 1) / k →
+      (pick xs ((List.range ((xs.length + k - 1) / k)).map (fun j => j * k)))[j]? = xs[j * k]? := by
+  have hb := (slice_step_indices xs.length k hk).2
+  generalize (xs.length + k - 1) / k = c at hb ⊢
+  have hp : ∀ c', c' ≤ c → (pick xs ((List.range c').map (fun j => j * k))).length = c' ∧
+      ∀ j, j < c' → (pick xs ((List.range c').map (fun j => j * k)))[j]? = xs[j * k]? := by
+    intro c'
+    induction c' with
+    | zero => intro _; simp [pick]
+    | succ m ih =>
+      intro hm
+      obtain ⟨l1, l2⟩ := ih (by omega)
+      have hin : m * k < xs.length := hb _ (List.mem_map.mpr ⟨m, List.mem_range.mpr (by omega), rfl⟩)
+      have e : pick xs ((List.range (m + 1)).map (fun j => j * k)) =
+          pick xs ((List.range m).map (fun j => j * k)) ++ [xs[m * k]] := by
+        unfold pick
+        rw [List.range_succ, List.map_append, List.filterMap_append]
+        simp [List.getElem?_eq_getElem hin]
+      rw [e]
+      refine ⟨by simp [l1], ?_⟩
+      intro j hj
+      rcases Nat.lt_or_ge j m with h | h
+      · rw [List.getElem?_append_left (by omega)]; exact l2 j h
+      · have : j = m := by omega
+        subst this
+        rw [List.getElem?_append_right (by omega), l1]
+        simp [List.getElem?_eq_getElem hin]
+  exact hp c (Nat.le_refl _)
+
+/-- a zero step is refused (`ValueError: slice step cannot be zero`) -/
+theorem slice_step_zero (n : Nat) (a b : Option Int) : sliceIndices n a b (some 0) = .error .valueError := by
+  unfold sliceIndices; simp
+
 end Sq
